@@ -24,6 +24,12 @@ use serde_json::{Value, json};
 
 pub const VERIF_ROOT: &str = "/verif";
 
+/// Where evidence and replay files go: /verif, unless VERIF_OUT_ROOT redirects them (background sweeps that must not
+/// touch the committed evidence).
+pub fn out_root() -> String {
+    std::env::var("VERIF_OUT_ROOT").unwrap_or_else(|_| VERIF_ROOT.to_string())
+}
+
 #[derive(Clone, Copy, Debug, PartialEq, Eq)]
 pub enum Tier {
     Quick,
@@ -349,7 +355,7 @@ impl Check {
 
     /// Save a violation: writes the replay file and remembers it.
     pub fn violation<C: Serialize>(&self, sub: &str, case: &C, f: &Failure) {
-        let dir = PathBuf::from(format!("{VERIF_ROOT}/out/replays"));
+        let dir = PathBuf::from(format!("{}/out/replays", out_root()));
         let _ = std::fs::create_dir_all(&dir);
         let mut h = std::collections::hash_map::DefaultHasher::new();
         f.signature.hash(&mut h);
@@ -603,7 +609,7 @@ impl Check {
             "wall_s": wall,
             "violations": violations.len(),
         });
-        let dir = format!("{VERIF_ROOT}/evidence");
+        let dir = format!("{}/evidence", out_root());
         let _ = std::fs::create_dir_all(&dir);
         let path = format!("{dir}/{}.json", self.property);
         std::fs::write(&path, serde_json::to_string_pretty(&ev).unwrap()).expect("write evidence");
